@@ -117,7 +117,19 @@ func (w *World) verifyFunc(fc *FuncContract, props []string) (res *UnitResult) {
 				x.ledger["definitional postcondition of "+fc.Name+" (names its result by spec functions; not proved): "+cl.Text] = true
 				continue
 			}
-			t := x.evalBool(cl.Expr, envR)
+			t, okEval := x.evalBoolLenient(cl.Expr, envR)
+			if !okEval {
+				// the clause mentions a local that does not exist yet on the way to this return: it can
+				// only hold there vacuously, so its antecedent must be false on this path
+				top := stripParen(cl.Expr)
+				if top.Op == "binary" && top.Name == "==>" {
+					if a, okA := x.evalBoolLenient(top.Args[0], envR); okA {
+						x.oblige(r.st, "ensures", "postcondition (its consequent names a local not yet declared on this path, so the antecedent must be false here): "+cl.Text+r.via, r.pos, x.c.Not(a), cl.Props, cl.Text)
+						continue
+					}
+				}
+				t = x.evalBool(cl.Expr, envR) // not an implication: report the evaluation error
+			}
 			x.oblige(r.st, "ensures", "postcondition: "+cl.Text+r.via, r.pos, t, cl.Props, cl.Text)
 		}
 		if fc.ModifiesGiven {
